@@ -116,8 +116,14 @@ func c20Eval(t *fw.T, c *fw.Case) {
 		m = c20ChainModel()
 	}
 	// every document has a type that a fresh method may name as the shape of its path parameters
-	m.Blocks = append(m.Blocks, &gen.Block{Kind: "type", Name: "@pathShape", Notation: "jsight", Schema: &gen.SNode{Kind: "object", Props: []*gen.SProp{
-		{Key: "fp", Node: &gen.SNode{Kind: "int", Val: "1", Optional: true}}, {Key: "fq", Node: &gen.SNode{Kind: "string", Val: "q", Note: "the q"}}}}})
+	// (in front, so that the document ends with whatever block the generator put last)
+	shape := &gen.Block{Kind: "type", Name: "@pathShape", Notation: "jsight", Schema: &gen.SNode{Kind: "object", Props: []*gen.SProp{
+		{Key: "fp", Node: &gen.SNode{Kind: "int", Val: "1", Optional: true}}, {Key: "fq", Node: &gen.SNode{Kind: "string", Val: "q", Note: "the q"}}}}}
+	if c.Index%2 == 0 {
+		m.Blocks = append([]*gen.Block{shape}, m.Blocks...)
+	} else {
+		m.Blocks = append(m.Blocks, shape)
+	}
 	base := gen.Render(m, nil)
 	db := run.Single([]byte(base.Text))
 	db.FixedSeed = true
@@ -158,6 +164,23 @@ func c20Eval(t *fw.T, c *fw.Case) {
 				map[string][]string{"interactions": {"http PUT " + path}, "tags": {catalog.VerifTagName(catalog.VerifPathTagTitle(path))}}}
 		}
 		decls = append(decls, mk("method-segment-extends-existing", "/"+seg+"zzfresh/x"), mk("method-dotdot-to-existing", "/zzfreshdots/../"+seg+"/zzfreshleaf"))
+	}
+	// ... and a fresh parameterised path whose literal segments, written together, spell those in front of an existing
+	// parameter (/api/v1/{id} and /apiv1/{fresh}): unrelated paths, other first segment, other parameter name
+	for _, b := range m.Blocks {
+		p := b.Path
+		if b.Kind == "method" && b.Method != nil {
+			p = b.Method.Path
+		}
+		at := strings.Index(p, "/{")
+		if at <= 0 || strings.Count(p[:at], "/") < 2 || strings.ContainsAny(p[:at], "{}%\" ") {
+			continue
+		}
+		joined := "/" + strings.ReplaceAll(p[1:at], "/", "") + "/{zzfreshparam}"
+		decls = append(decls, freshDecl{"method-joined-segments-of-existing", &gen.Block{Kind: "method", Method: &gen.Method{Verb: "PUT", Path: joined, OwnPath: true,
+			Responses: []*gen.Response{{Code: "200", Body: gen.Body{Form: "any"}}}}},
+			map[string][]string{"interactions": {"http PUT " + joined}, "tags": {catalog.VerifTagName(catalog.VerifPathTagTitle(joined))}}})
+		break
 	}
 	for _, fd := range decls {
 		for _, pos := range positions {
